@@ -19,6 +19,8 @@ def oracle(prog, vec, mode, n, p, o, extra):
 
 
 def run(ctx):
+    from .. import xfeat
+    xfeat.sweep(ctx, "C04")      # cross-feature compositions (pv/xfeat.py)
     cfg = e1.standard_configs(ctx)
     e1.sweep(ctx, E.depth1_programs(include_fxp=True), cfg, "pv.checks.c04.oracle")
     from ..recorder import BN128, CURVE25519, REAL_FIELDS
@@ -42,4 +44,7 @@ def run(ctx):
 
 
 def replay(case):
+    if isinstance(case, dict) and case.get("xfeat"):
+        from .. import xfeat
+        return xfeat.replay(case, "C04")
     return X.replay_case(case, oracle)
